@@ -463,7 +463,7 @@ func (mi *muxInstance) serveHTTP(stdw http.ResponseWriter, stdr *http.Request) {
 			header[k] = v
 		}
 		stdw.WriteHeader(resp.StatusCode())
-		respBodySize, _ := io.Copy(stdw, resp.GetPayload())
+		respBodySize, copyErr := io.Copy(stdw, resp.GetPayload())
 
 		ctx.Finish()
 
@@ -497,6 +497,18 @@ func (mi *muxInstance) serveHTTP(stdw http.ResponseWriter, stdr *http.Request) {
 				stdr.Proto, resp.StatusCode(), metric.Duration, metric.ReqSize,
 				metric.RespSize, ctx.Tags())
 		})
+
+		// The status line and the header are on the wire already. If the
+		// body could not be copied completely (for example a streamed body
+		// whose source broke off), abort the connection, otherwise net/http
+		// terminates the message properly and the client takes the prefix
+		// for the complete body (net/http/httputil.ReverseProxy does the
+		// same). A body that the protocol does not allow (HEAD, 204, 304)
+		// is dropped by net/http and is not a failure.
+		if copyErr != nil && copyErr != http.ErrBodyNotAllowed {
+			logger.Debugf("%s: failed to send response body: %v", mi.superSpec.Name(), copyErr)
+			panic(http.ErrAbortHandler)
+		}
 	}()
 
 	route := mi.search(req)
